@@ -99,6 +99,13 @@ static void check_literal(cs::Ctx& ctx, const std::string& lit) {
       judge_float(ctx, lit, L, p.d, "document");
     }
   }
+  if (lit.size() > 63 && lit.size() < 90) {
+    // longer tokens are outside the documented limit: the outcome is not judged, but the call must be safe
+    JsonDocument doc;
+    std::string text = "[" + lit + "]";
+    deserializeJson(doc, text.data(), text.size());
+    ctx.executions++;
+  }
   // ---- through as<T>() on a string (any length), linked and copied storage
   for (int linked = 0; linked < 2; linked++) {
     JsonDocument doc;
